@@ -9,7 +9,8 @@ CFGS = {"quick": ["sse2"], "thorough": ["sse2", "scalar"]}
 BOUNDS = ("E2-R on the optimised IR of the SSE2 and scalar-math builds, Quat and DQuat: Hamilton product (4 polynomial identities, exact on the integer lattice reported), conjugate, "
           "+ - scalar* scalar/ dot length_squared, normalize (with r = sqrt(len^2) as a constrained symbol), q*v for Vec3 and Vec3A == vector part of q (v,0) conj(q) for EVERY q, "
           "and its consequences |q*v|^2 = |q|^4 |v|^2, (q*p)*v = q*(p*v), conj(q)*(q*v) = |q|^4 v, (-q)*v = q*v, inverse(q)*(q*v) = v at |q| = 1; rounding outside the claim. "
-          "E1: mul_vec3 == mul_vec3a bit for bit on all inputs.")
+          "E1: mul_vec3 == mul_vec3a bit for bit on all inputs; q + e, q - e, q * s, q / s, -q equal the IEEE primitive on each stored lane for all inputs (rounding included), conjugate bit for bit "
+          "(Quat and DQuat, SSE2; scalar-math too in the thorough tier).")
 ASSUMPTIONS = ["IEEE operations read as exact real operations (mode R)"]
 
 
@@ -87,4 +88,15 @@ va!("mul_vec3 == mul_vec3a z", a.z.same(b.z) && c.z.same(a.z) && d.z.same(a.z));
             b = [draw, f"vassume!({rng});", f"let r = {Q}::from_xyzw(p0, p1, p2, p3) * {Q}::from_xyzw(p4, p5, p6, p7);"] + \
                 [f'va!("{Q}*{Q} exact on the lattice [{k}]", r.{"xyzw"[k]} == (({want[k]}) as {sc}));' for k in range(4)]
             hs.append(Harness(f"c04_{Q.lower()}_mul_lattice", "\n".join(b), backend="sat", desc=f"{Q} * {Q} is the exact integer Hamilton product for ALL 3^8 operand pairs with components in {{-1,0,1}} (bit-precise)", site=f"{Q}::mul_quat", cap=900))
+    # component-wise clause, bit level (every backend form of the operator): q + e, q - e, q * s, q / s, -q and conjugate are the primitive operation on each stored lane
+    # (the E2-R kernels above read IEEE operations as reals, where x * (1/s) and x / s coincide; these harnesses decide the rounding too)
+    for Q, sc in (("Quat", "f32"), ("DQuat", "f64")):
+        draw = f"let q = {Q}::from_xyzw(s.{sc}(), s.{sc}(), s.{sc}(), s.{sc}()); let e = {Q}::from_xyzw(s.{sc}(), s.{sc}(), s.{sc}(), s.{sc}()); let t = s.{sc}();"
+        for nm, expr, lane in (("add", "q + e", "q.{l} + e.{l}"), ("sub", "q - e", "q.{l} - e.{l}"), ("mul_scalar", "q * t", "q.{l} * t"), ("div_scalar", "q / t", "q.{l} / t"),
+                               ("neg", "-q", "-q.{l}")):
+            b = [draw, f"let r = {expr};"] + [f'va!("({expr}).{l} == {lane.format(l=l)}", r.{l}.same({lane.format(l=l)}));' for l in "xyzw"]
+            hs.append(Harness(f"c04_{Q.lower()}_{nm}_lanes", "\n".join(b), backend="smt", desc=f"{Q}: `{expr}` is the IEEE primitive on each of the four stored lanes, for all inputs (value equality, NaN ~ NaN)",
+                              site=f"{Q}::{nm}", cap=120))
+        b = [draw, "let r = q.conjugate();"] + [f'va!("conjugate.{l}", r.{l}.bits({"-" if l != "w" else ""}q.{l}));' for l in "xyzw"]
+        hs.append(Harness(f"c04_{Q.lower()}_conjugate_bits", "\n".join(b), backend="smt", desc=f"{Q}::conjugate flips exactly the sign bit of x, y, z and keeps w, bit for bit", site=f"{Q}::conjugate", cap=60))
     return hs + [Harness("c04_quat_mul_vec3_vs_vec3a", body, backend="smt", desc="Quat::mul_vec3(v) == Vec3::from(Quat::mul_vec3a(v.into())) for all inputs (value equality), operator forms alike", site="Quat::mul_vec3")]
